@@ -209,7 +209,13 @@ func zeroOfSort(s Sort) *Term {
 	}
 	if strings.HasPrefix(string(s), "(Array ") {
 		idx, el := arrParts(s)
-		_ = idx
+		if strings.Contains(string(s), "Str") {
+			// cvc5 accepts only values under (as const ...): use a named zero array with an axiom
+			z := Sym("zero$"+sanitize(string(s)), s)
+			i := BVar("i", idx)
+			addAxiomFor(z.op, Forall([]*Term{i}, Eq(Select(z, i), zeroOfSort(el)), []*Term{Select(z, i)}))
+			return z
+		}
 		return App("(as const "+string(s)+")", s, zeroOfSort(el))
 	}
 	panic("zeroOfSort " + string(s))
